@@ -33,6 +33,118 @@ def unq (s : String) : String := if s == "-" then "" else s
 def astExpect : String :=
   "closure-adds=1 defer-close-first=true err-assign=4 removes=3 remove-by-key=true waits-done=true waits-ctx=true unprepared-evicts-then-retries=true"
 
+
+/-! ### session tier: observed histories of real Sessions, judged by the observable-level specification `Obs`
+
+  trace <ev> <ev> ...        → accept | reject:<index>:<event>:<clause>
+  events (no blanks inside):
+    S:<c>:<q|b>:<key>/<nvals>,...        call c starts (query / batch), entries
+    P:<f>:<key>:ok/<idhex>/<ncols>       the server received PREPARE number f of <key> and answers PREPARED
+    P:<f>:<key>:err                      ... answers with an error
+    R:<key>:<f>                          flight f left the statement cache (OnEvicted)
+    X:<c>:<idhex>,...:<ok|err|un/<idhex>> the server received call c's EXECUTE / BATCH with these ids and answers
+    T:<c>:<ok|xe|ce|pe/<f>>              call c returned: success, the server's execute error, value-count error,
+                                         the failure of PREPARE f
+    H:<c>                                watchdog: call c did not return, a goroutine is blocked inside gocql
+    C                                    panic inside gocql
+  anything else is an event the specification does not have (rejected). -/
+
+def parseEntry (w : String) : Option (String × Nat) :=
+  match w.splitOn "/" with
+  | [k, n] => n.toNat?.map fun n => (k, n)
+  | _ => none
+
+def parseXAns (ws : List String) : Option PConn.XAns :=
+  match ws with
+  | ["ok"] => some .ok
+  | ["err"] => some .err
+  | [u] => match u.splitOn "/" with
+    | ["un", id] => (parseHex id).map .unprep
+    | _ => none
+  | _ => none
+
+def parseEv (w : String) : Option (PConn.Ev String) :=
+  match w.splitOn ":" with
+  | ["S", c, kind, es] =>
+    match c.toNat?, (es.splitOn ",").mapM parseEntry with
+    | some c, some es => if kind == "q" || kind == "b" then some (.start c (kind == "b") es) else none
+    | _, _ => none
+  | ["P", f, k, r] =>
+    match f.toNat?, r.splitOn "/" with
+    | some f, ["err"] => some (.prep f k none)
+    | some f, ["ok", id, n] =>
+      match parseHex id, n.toNat? with
+      | some id, some n => some (.prep f k (some (id, n)))
+      | _, _ => none
+    | _, _ => none
+  | ["R", k, f] => f.toNat?.map fun f => .rm k f
+  | "X" :: c :: ids :: a =>
+    match c.toNat?, (ids.splitOn ",").mapM parseHex, parseXAns a with
+    | some c, some ids, some a => some (.exec c ids a)
+    | _, _, _ => none
+  | ["T", c, o] =>
+    match c.toNat?, o.splitOn "/" with
+    | some c, ["ok"] => some (.ret c .ok)
+    | some c, ["xe"] => some (.ret c .execErr)
+    | some c, ["ce"] => some (.ret c .countErr)
+    | some c, ["pe", f] => f.toNat?.map fun f => .ret c (.prepErr f)
+    | _, _ => none
+  | ["H", c] => c.toNat?.map .hang
+  | ["C"] => some .crash
+  | _ => none
+
+/-- which clause of the specification rejects event `e` in state `o` (diagnostics only) -/
+def why (o : Obs.OState String) : PConn.Ev String → String
+  | .start c _ es =>
+    if c ≠ o.callers.length then "call-number-out-of-order" else if es = [] then "no-entries" else "?"
+  | .prep f k _ =>
+    if o.credit k = 0 then "second-PREPARE-while-the-statement-is-cached(single-flight)"
+    else if !(o.callers.any fun cl => cl.pc.live && Obs.hasKey cl.entries k) then "PREPARE-without-an-execution-of-that-statement"
+    else match o.flights f with
+      | some fl => if fl.key ≠ k then "flight-of-another-key" else "PREPARE-number-reused"
+      | none => "?"
+  | .rm k f =>
+    match o.flights f with
+    | some fl => if fl.key ≠ k then "removed-under-another-key" else "flight-removed-twice"
+    | none => "?"
+  | .exec c ids _ =>
+    match o.callers[c]? with
+    | none => "unknown-call"
+    | some cl =>
+      if !cl.pc.live then "frame-from-a-call-that-is-not-running"
+      else if ids.length ≠ cl.entries.length then "number-of-ids"
+      else "id-not-returned-by-a-current-PREPARE-of-that-statement-on-that-host-with-that-many-columns(id-belongs/value-count)"
+  | .ret c out =>
+    match o.callers[c]? with
+    | none => "unknown-call"
+    | some cl =>
+      match out with
+      | .ok => "ok-without-an-ok-answer"
+      | .execErr => "execute-error-without-such-an-answer"
+      | .countErr => "value-count-error-without-a-mismatching-PREPARE"
+      | .prepErr f =>
+        if !cl.pc.live then "prepare-error-from-a-call-that-is-not-running"
+        else if cl.banned f then "failure-served-from-cache(reported-to-a-call-that-began-after-it-was-known)"
+        else match o.flights f with
+          | none => "failure-of-an-unknown-PREPARE"
+          | some fl =>
+            if fl.ans ≠ some none then "PREPARE-did-not-fail"
+            else if !fl.removed then "failure-reported-while-still-cached(failed-flight-published)"
+            else "failure-of-another-statement"
+  | .crash => "panic-inside-gocql"
+  | .hang _ => "execution-never-returned(every-frame-answered;goroutine-blocked-inside-gocql)"
+
+def judge (ws : List String) : String :=
+  match ws.mapM parseEv with
+  | none =>
+    match ws.find? (fun w => (parseEv w).isNone) with
+    | some w => "reject:event-outside-the-specification:" ++ w
+    | none => "reject:unparsable"
+  | some evs =>
+    match Obs.firstReject Obs.init evs 0 with
+    | none => "accept"
+    | some (i, o) => s!"reject:{i}:{ws.getD i "?"}:{why o (evs.getD i .crash)}"
+
 def step (s : St) (ws : List String) : St × String :=
   match ws with
   | ["reset", "lru", cap] => ({ s with lru := LRU.new (cap.toInt?.getD 0) }, "ok")
@@ -86,6 +198,7 @@ def step (s : St) (ws : List String) : St × String :=
     let p := s.prep
     ({ s with prep := { p with cache := { p.cache with items := [] } } }, "ev=" ++ showEvN p.cache.items.reverse)
   | ["ast", "prepareStatement"] => (s, astExpect)
+  | "trace" :: evs => (s, judge evs)
   | _ => (s, "bad-op")
 
 end Driver.C14
